@@ -217,14 +217,32 @@ def run(P: Program, R: Report, tier: str) -> None:
         # R01.6
         destructive = any("remove_node" in norm(n) or "remove_edge" in norm(n) for n in ast.walk(c.methods["_apply"].node)) if "_apply" in c.methods else False
         if destructive:
-            loops = [n for n in ast.walk(init.node) if isinstance(n, ast.For) and any(self_field(t) in fields for s in ast.walk(n) if isinstance(s, ast.Assign) for t in s.targets)]
-            R.check(bool(loops), "R01.6", init, init.node, f"{c.name} captures attribute values in a loop over a registry view",
-                    "no capture loop found", via="syntax")
-            for lp in loops:
-                it = norm(lp.iter)
+            # the iteration (for loop or comprehension) that fills a captured field key by key
+            iters = []
+            for n in ast.walk(init.node):
+                if isinstance(n, ast.For) and any(self_field(t) in fields for s_ in ast.walk(n) if isinstance(s_, ast.Assign) for t in s_.targets):
+                    iters.append((n, n.iter))
+                elif isinstance(n, ast.Assign) and isinstance(n.value, (ast.DictComp, ast.ListComp)) and any(self_field(t) in fields for t in n.targets):
+                    iters.append((n, n.value.generators[0].iter))
+            attr_iters = [(n, it) for n, it in iters if "attr" in norm(n).lower()]
+            R.check(bool(attr_iters), "R01.6", init, init.node, f"{c.name} captures attribute values key by key from a registry view",
+                    "no capture iteration found", via="syntax")
+            for n, it_expr in attr_iters:
+                it = norm(it_expr)
+                # follow a local alias
+                if isinstance(it_expr, ast.Name):
+                    d_ = [x for x in ast.walk(init.node) if isinstance(x, ast.Assign) and any(isinstance(t, ast.Name) and t.id == it_expr.id for t in x.targets)]
+                    if len(d_) == 1:
+                        it = norm(d_[0].value)
                 ok = ".features." in it and (it.startswith("self.tracks.") or it.startswith("tracks."))
-                R.check(ok, "R01.6", init, lp, f"{c.name}: capture loop iterates the feature registry ({it})",
-                        f"iterates `{it}`: attributes outside that collection are lost on undo", via="dataflow")
+                literal = isinstance(it_expr, (ast.List, ast.Tuple, ast.Set))
+                if ok:
+                    R.ok("R01.6", init, n, f"{c.name}: capture iterates the feature registry ({it})", via="dataflow")
+                elif literal or "features" not in it:
+                    R.fail("R01.6", init, n, f"{c.name}: capture iterates the feature registry",
+                           f"iterates `{it}`: attributes outside that collection are lost on undo")
+                else:
+                    R.undecided("R01.6", init, n, f"{c.name}: capture iterates `{it}`", "shape not recognised")
 
     # R01.7 group inverse
     G = P.class_named("ActionGroup")
@@ -251,7 +269,7 @@ def run(P: Program, R: Report, tier: str) -> None:
     R.check(ret_ok, "R01.7", ginv, ginv.node, "group inverse returns a group on the same tracks", src[:120], via="syntax")
 
     # R01.8 every sub-edit recorded
-    keep = lambda e: e.depth == 0 and (e.kind == "append" or (e.kind == "construct" and e.args.get("_kind") in ("prim", "user", "action")))  # noqa: E731
+    keep = lambda e: e.xdepth == 0 and (e.kind == "append" or (e.kind == "construct" and e.args.get("_kind") in ("prim", "user", "action")))  # noqa: E731
     n_sites = set()
     for c in A.user_actions:
         f = A.init_of(c)
@@ -270,6 +288,10 @@ def run(P: Program, R: Report, tier: str) -> None:
                         R.ok("R01.8", f, e.where(), f"constructed {e.name} is recorded in self.actions", via="path-pairing")
                 else:
                     missing = [e for e in built if e.args["_obj"] not in appended]
+                    if not built:
+                        # something that was not constructed here is appended (e.g. an action built by a
+                        # module-level helper): not this rule's subject
+                        continue
                     e = missing[0] if missing else built[0]
                     R.fail("R01.8", f, e.where(),
                            f"constructed {e.name} is " + ("not recorded in self.actions" if missing else "recorded out of order"),
